@@ -76,7 +76,7 @@ def modifyChan (cs : List Chan) (i : Nat) (f : Chan → Chan) : List Chan :=
 /-- `AnySource.ChangeTriggerState`: (new channels, error?, panic?) -/
 def changeTrig (cs : List Chan) (idxs : List Int) (ts : TS) (emt : EMT) : Option (List Chan × Bool) :=
   if idxs.isEmpty then some (cs, true)
-  else if idxs.any (fun i => i ≥ cs.length) then some (cs, true)
+  else if idxs.any (fun i => i ≥ cs.length || i < 0) then some (cs, true)   -- both bounds since fix 0d7f1f3
   else
     let rec go (cs : List Chan) : List Int → Option (List Chan × Bool)
       | [] => some (cs, false)
